@@ -325,7 +325,7 @@ def judge(src, info, opt, locked, debug, cal, stats):
     return out, "accepted"
 
 
-KIND_PLAN = [("colon", False)] * 5 + [("mixed", False)] * 2 + [("func", False)] * 2 + [("mixed", True)] * 2 + [("colon", True), ("func", True)]
+KIND_PLAN = [("colon", False)] * 4 + [("mixed", False)] * 2 + [("func", False)] * 2 + [("local", False)] + [("mixed", True)] * 2 + [("colon", True), ("func", True)]
 
 
 def gen_cases(ctx):
